@@ -563,7 +563,9 @@ fn history_strategy(maxlen: usize) -> impl Strategy<Value = Case> {
   // time a date where the calendar is irregular: reform-era windows, the AD 24 hole, October 1582, the ends of the
   // range), every month-carrying request to the lunar months around it - per-thread cursors and "last result" shortcuts
   // are only wrong for requests close to the previous one
-  let special: Vec<i64> = vec![1724360, 1724389, 1730237, 1730265, 1808758, 1808787, 1729853, 1729882, 1729823, 1729912, 2299160, 2299161, 1721424 + 40, 1721424 + 400, 5373484 - 400, 5373484 - 40, 2415021, 2460311]
+  let special: Vec<i64> = vec![1724360, 1724389, 1730237, 1730265, 1808758, 1808787, 1729853, 1729882, 1729823, 1729912, 2299160, 2299161, 1721424 + 40, 1721424 + 400, 5373484 - 400, 5373484 - 40, 2415021, 2460311,
+    // Lichun days (the year pillar turns inside the day): 1950-02-04, 1984-02-04, 2017-02-03, 2024-02-04, 2100-02-04
+    2433317, 2445735, 2457788, 2460345, 2488104]
     .into_iter()
     .filter_map(|j| cal().index_of_jdn(j).map(|i| i as i64))
     .collect();
@@ -574,7 +576,9 @@ fn history_strategy(maxlen: usize) -> impl Strategy<Value = Case> {
       let c = cal();
       let b = base - 20_000;
       for (k, op) in ops.iter_mut().enumerate() {
-        let off = (op[2] * 7 + op[3] * 31 + op[4] * 3 + k as i64 * 13).rem_euclid(91) - 45;
+        // half of the requests within 3 days of the base date, the others within 45
+        let h = op[2] * 7 + op[3] * 31 + op[4] * 3 + k as i64 * 13;
+        let off = if h % 2 == 0 { h.rem_euclid(7) - 3 } else { h.rem_euclid(91) - 45 };
         let i = (b + off).clamp(0, NDAYS as i64 - 1) as usize;
         let (y, m, d) = c.ymd(i);
         match op[0] {
@@ -1269,6 +1273,28 @@ impl Prop for C10 {
           if p[0] >= 1 && p[2] >= 1 && p[1] > 0 && p[3] > 0 {
             run_case(env, out, "fresh", &Case::ints(&[14, p[0], p[1], 5, 3, 14, p[2], p[3], 5, 3]), &ev);
             run_case(env, out, "fresh", &Case::ints(&[2, p[0], p[1], 5, 0, 12, p[2], p[3], 5, 0]), &ev);
+          }
+        }
+        // cross-kind ordered pairs about one year: a request of kind k1 about the middle of the year, then a request of kind
+        // k2 about a date where something turns inside the day or the year (Lichun, a solstice, lunar new year, a leap
+        // month, the cut-over, a reform-era seam) - in one fresh process vs each alone in a fresh process. State shared between
+        // two routes that the hooks do not know is invisible to the in-process oracle (the reference would share it).
+        {
+          let kinds: [i64; 14] = [0, 1, 2, 3, 4, 5, 6, 7, 11, 12, 18, 19, 20, 21];
+          let bases: [(i64, i64, i64); 8] = [(2024, 2, 4), (1950, 2, 4), (2023, 12, 22), (2024, 2, 10), (2023, 3, 25), (1582, 10, 15), (25, 2, 17), (9997, 6, 1)];
+          let mut idx = 0usize;
+          for (bi, (by, bm, bd)) in bases.iter().enumerate() {
+            for k1 in kinds {
+              for k2 in kinds {
+                idx += 1;
+                if idx % nshards != shard || (env.tier == Tier::Quick && (idx / nshards + bi) % 3 != (env.seed % 3) as usize) {
+                  continue;
+                }
+                let h = [0i64, 10, 16, 23][(idx / 7) % 4];
+                out.class("cross_kind_pairs_about_one_year");
+                run_case(env, out, "fresh", &Case::ints(&[k1, *by, 7, 1, 12, k2, *by, *bm, (*bd).min(28), h]), &ev);
+              }
+            }
           }
         }
         let total: u32 = env.tier.pick(480, 8000);
